@@ -29,12 +29,13 @@ NodeUnits == {<<[t |-> "N", id |-> i, open |-> o]>> : i \in Ids \cup {7}, o \in 
 EmptyEdgeUnits == {<<[t |-> "E", s |-> a, d |-> b, open |-> FALSE]>> : a \in Ids, b \in Ids}
                   \cup {<<[t |-> "E", s |-> 7, d |-> 1, open |-> FALSE]>>, <<[t |-> "E", s |-> 2, d |-> 7, open |-> FALSE]>>}
 DataForms ==
-  {[t |-> "D", key |-> "weight", txt |-> x, w |-> 3] : x \in {"num", "pad", "word", "empty", "child", "childnode", "childedge"} \cup OddNumbers}
+  {[t |-> "D", key |-> "weight", txt |-> x, w |-> 3] : x \in {"num", "pad", "word", "empty", "child", "childnode", "childedge", "selfclose"} \cup OddNumbers}
   \cup {[t |-> "D", key |-> k, txt |-> "num", w |-> 5] : k \in {"alt", "other", "none"}}
 OpenEdgeUnits ==
   {<<[t |-> "E", s |-> a, d |-> b, open |-> TRUE], [t |-> "/E"]>> : a \in {1, 2}, b \in {1, 2}}
   \cup {<<[t |-> "E", s |-> a, d |-> b, open |-> TRUE], dd, [t |-> "/E"]>> : a \in {1, 2}, b \in {1, 2}, dd \in DataForms}
 OtherUnits == {<<[t |-> "D", key |-> "weight", txt |-> "num", w |-> 7]>>,   \* weight data outside an edge
+               <<[t |-> "D", key |-> "weight", txt |-> "selfclose", w |-> 7]>>,   \* an empty-element weight tag, anywhere
                <<[t |-> "X"]>>, <<[t |-> "T"]>>, <<[t |-> "C"]>>,
                <<[t |-> "DUP", id |-> 1]>>, <<[t |-> "ENT"]>>, <<[t |-> "BADEND"]>>, <<[t |-> "NU"]>>}
               \cup {<<[t |-> "TRUNC", at |-> a]>> : a \in TruncPlaces}
